@@ -131,6 +131,26 @@ def program_strategy(draw):
             groups.append(g)
         else:
             groups.append(draw(leaf_strategy(names, dests)))
+    if draw(st.integers(0, 2)) > 0:
+        # a group that moves particles and refreshes the neighbours,
+        # followed by a group whose result depends on the neighbour lists
+        d = dests[0]
+        pos = draw(st.integers(0, len(groups) - 1))
+        nudge = dict(kind='leaf',
+                     eqs=[dict(cls='TP', dest=d, sources=None,
+                               k=draw(st.integers(1, 9))),
+                          dict(cls='TNudge', dest=d, sources=None, k=1)],
+                     real=True, start=0, stop=None, cond=None, pre=False,
+                     post=False, update_nnps=True, iterate=False, min_it=0,
+                     max_it=1)
+        dep = dict(kind='leaf',
+                   eqs=[dict(cls=draw(st.sampled_from(['TL', 'TA'])),
+                             dest=d, sources=list(names),
+                             k=draw(st.integers(1, 9)))],
+                   real=True, start=0, stop=None, cond=None, pre=False,
+                   post=False, update_nnps=False, iterate=False, min_it=0,
+                   max_it=1)
+        groups[pos:pos] = [nudge, dep]
     return dict(dim=dim, kernel=kernel, names=names, groups=groups)
 
 
